@@ -587,7 +587,7 @@ def eval_grammar(prop: str, rng: random.Random, gname: str, gtext: str, rules_as
                 if "oof" in (ra[0], rb[0]):
                     continue
                 if outcome(ra) != outcome(rb):
-                    bad("optimized parser differs from the unoptimized one", mode=b, expected=enc_struct(ra)[:400], observed=enc_struct(rb)[:400])
+                    bad("optimized parser differs from the unoptimized one", mode=b, expected=enc_struct(ra)[:6000], observed=enc_struct(rb)[:6000])
         elif prop == "C06":
             start_silent = bool(md.p0.rules[start].modifier & SILENT)
             for m in MODES:
@@ -672,7 +672,7 @@ def eval_grammar(prop: str, rng: random.Random, gname: str, gtext: str, rules_as
                     if outcome(r1) != outcome(r2):
                         out["direct"].append({**base, "rule": start, "input": [ord(c) for c in text], "start_pos": k,
                                               "what": "rewritten grammar parses differently", "rewritten": new_text,
-                                              "rewrites": desc, "mode": m, "expected": enc_struct(r1)[:300], "observed": enc_struct(r2)[:300]})
+                                              "rewrites": desc, "mode": m, "expected": enc_struct(r1)[:6000], "observed": enc_struct(r2)[:6000]})
 
 
 def spec_compare(res: dict, spec_answer: str) -> list[tuple[str, str]]:
@@ -779,6 +779,25 @@ def _worker(job):
     out = {"lines": [], "expect": [], "direct": [], "load_errors": [], "stats": collections.Counter(), "timeouts": []}
     groups = G.FEATURE_GROUPS if plan["groups"] is None else [g for g in G.FEATURE_GROUPS if g[0] in plan["groups"]]
     n_inputs = 5 if tier == "quick" else 8
+    if shard == 0:
+        # the corpus of minimised past failures (defects repaired in /repo, seeded changes) runs first
+        cfile = Path(__file__).resolve().parent.parent / "corpus" / "core.jsonl"
+        if cfile.exists():
+            import json as _json
+            for line in cfile.read_text().splitlines():
+                ent = _json.loads(line)
+                cases = [(r, t, k) for r, t, k in ent["cases"]]
+                if prop == "C16":
+                    cases += [(r, t, min(len(t), 1 + i % 3)) for i, (r, t, _k) in enumerate(cases)]
+                for passes in (list(PASS_NAMES), ["skip", "squash_choice"]):
+                    signal.alarm(60)
+                    try:
+                        eval_grammar(prop, rng, "corpus:" + ent["name"], ent["grammar"], None, passes, cases, out)
+                        out["stats"]["corpus_grammars"] += 1
+                    except Timeout:
+                        out["timeouts"].append({"group": "corpus", "grammar": ent["grammar"], "passes": passes})
+                    finally:
+                        signal.alarm(0)
     for i in range(n_random):
         gname, feats = groups[(i + shard) % len(groups)]
         rules = G.gen_grammar(rng, feats)
@@ -970,6 +989,49 @@ def _worker(job):
             "load_errors": out["load_errors"][:5], "timeouts": out["timeouts"][:5], "nlines": len(out["lines"])}
 
 
+# ---------------------------------------------------------------- known findings
+
+_TAG_FIELD = re.compile(r"\((\w+),(\d+),(\d+),[^,\[\]()]+,\[")
+
+
+def erase_tags_str(s_: str) -> str:
+    return _TAG_FIELD.sub(lambda m: f"({m.group(1)},{m.group(2)},{m.group(3)},-,[", s_)
+
+
+def tag_only_difference(f: dict) -> bool:
+    """region of the known finding `tag-lost-on-backtrack`: the grammar writes a tag and the two
+    results are equal once tags are erased"""
+    exp, obs = f.get("expected"), f.get("observed")
+    if not isinstance(exp, str) or not isinstance(obs, str) or not tags_of(f.get("grammar", "")):
+        return False
+    exp = exp[len("shifted "):] if exp.startswith("shifted ") else exp
+    return exp != obs and erase_tags_str(exp) == erase_tags_str(obs)
+
+
+def replay_known_tag_finding(prop: str) -> str | None:
+    """does the recorded witness still fail on the current tree?"""
+    import json as _json
+    fp = Path(__file__).resolve().parent.parent / "findings" / "tag-lost-on-backtrack.json"
+    if not fp.exists():
+        return None
+    doc = _json.loads(fp.read_text())
+    try:
+        if prop == "C02":
+            w = doc["witness_C02"]
+            a = run_struct(P.make_parser(w["grammar"], None).parse, w["rule"], w["input"], 0)
+            b = run_struct(P.make_parser(w["grammar"], mk_optimizer(w["passes"])).parse, w["rule"], w["input"], 0)
+        else:
+            w = doc["witness"]
+            a = run_struct(P.make_parser(w["grammar"], None).parse, w["rule"], w["input"], 0)
+            b = run_struct(P.make_parser(w["rewritten"], None).parse, w["rule"], w["input"], 0)
+    except Exception:  # noqa: BLE001
+        return None
+    if a != b and a[0] == b[0] == "ok" and erase_tags(a[1]) == erase_tags(b[1]):
+        return ("key=tag-lost-on-backtrack a pending node tag consumed inside an attempt that later fails is not restored "
+                "(tag_stack is not checkpointed); results differ in tags only")
+    return None
+
+
 # ---------------------------------------------------------------- replay / shrinking
 
 
@@ -1076,6 +1138,18 @@ def run_prop(out: Outcome, level_when_proved: str = "proof") -> None:
     # ---- verdict (DESIGN §5)
     reported = 0
     seen = set()
+    n_known = 0
+    if prop in ("C02", "C08"):
+        kept = []
+        for f in direct:
+            if tag_only_difference(f):
+                n_known += 1
+            else:
+                kept.append(f)
+        direct = kept
+        msg = replay_known_tag_finding(prop)
+        if msg:
+            out.known.append(msg)
     for f in direct:
         key = (f.get("what"), f.get("mode"), f.get("group"))
         if key in seen:
@@ -1140,6 +1214,7 @@ def run_prop(out: Outcome, level_when_proved: str = "proof") -> None:
         "model_answers_compared": int(stats["corr_checked"] + stats["spec_checked"]),
         "correspondence_mismatches": n_corr,
         "direct_failures": n_direct,
+        "attributed_to_known_findings": n_known,
         "timeouts": len(timeouts),
         "load_errors": len(load_errors),
         "outcome_distribution": {k: int(v) for k, v in sorted(stats.items())},
